@@ -68,6 +68,17 @@ theorem drain_queue_le (fuel : Nat) (s : St) : (drain fuel s).queue.length ≤ s
         simp only [hq, List.length_cons] at this ⊢; omega
       · simp [hq]
 
+theorem admitReqs_queue_le_limit (fuel : Nat) (s : St) : (admitReqs fuel s).limit = s.limit := by
+  induction fuel generalizing s with
+  | zero => rfl
+  | succ n ih =>
+    unfold admitReqs
+    split
+    · rfl
+    · split
+      · rw [ih]
+      · rfl
+
 theorem admitReqs_queue_le (fuel : Nat) (s : St) (h : s.queue.length ≤ s.limit) :
     (admitReqs fuel s).queue.length ≤ s.limit ∧ (admitReqs fuel s).limit = s.limit := by
   induction fuel generalizing s with
@@ -82,5 +93,55 @@ theorem admitReqs_queue_le (fuel : Nat) (s : St) (h : s.queue.length ≤ s.limit
         have := ih { s with waiting := rest, queue := s.queue ++ [r] } (by simp; omega)
         exact this
       · exact ⟨h, rfl⟩
+
+end SquidModel.Pipeline
+
+namespace SquidModel.Pipeline
+
+/-- `admitReqs` with enough fuel saturates: if something is still waiting afterwards the pipeline is full -/
+theorem admitReqs_saturates (fuel : Nat) (s : St) (hf : s.waiting.length ≤ fuel) :
+    (admitReqs fuel s).waiting ≠ [] → s.limit ≤ (admitReqs fuel s).queue.length := by
+  induction fuel generalizing s with
+  | zero =>
+    intro h
+    have : s.waiting = [] := List.eq_nil_of_length_eq_zero (by omega)
+    simp [admitReqs, this] at h
+  | succ n ih =>
+    unfold admitReqs
+    split
+    · intro h; rename_i hw; exact absurd hw h
+    · rename_i r rest hw
+      split
+      · intro h
+        have := ih { s with waiting := rest, queue := s.queue ++ [r] } (by simp [hw] at hf ⊢; omega) h
+        simpa using this
+      · intro _; omega
+
+/-- saturation: whenever a request is still unparsed, the pipeline holds `limit` requests -/
+def Saturated (s : St) : Prop := s.waiting ≠ [] → s.limit ≤ s.queue.length
+
+theorem admitReqs_saturated (s : St) : Saturated (admitReqs s.waiting.length s) := by
+  intro hw
+  have := admitReqs_saturates s.waiting.length s (Nat.le_refl _) hw
+  rw [admitReqs_queue_le_limit]
+  exact this
+
+theorem step_saturated (s : St) (e : Ev) (h : Saturated s) : Saturated (step s e) := by
+  cases e with
+  | parse => exact admitReqs_saturated s
+  | complete r =>
+    simp only [step]
+    split
+    · split
+      · split
+        · exact admitReqs_saturated _
+        · exact h
+      · exact h
+    · exact h
+
+theorem run_saturated (s : St) (evs : List Ev) (h : Saturated s) : Saturated (run s evs) := by
+  induction evs generalizing s with
+  | nil => exact h
+  | cons e rest ih => exact ih _ (step_saturated s e h)
 
 end SquidModel.Pipeline
